@@ -1,0 +1,83 @@
+//go:build verif
+
+// Verification hooks (build tag "verif" only) for the C15 harness: a way to put a task on the
+// controller's own event queue, the number of waiting tasks, and read-only copies of the pod
+// cache and the endpoint slice cache. No behaviour change; absent from normal builds.
+
+package controller
+
+import (
+	"sort"
+
+	"istio.io/istio/pilot/pkg/model"
+	"istio.io/istio/pkg/queue"
+)
+
+// VerifC15Push appends f to the controller's event queue (the queue all informer handlers use).
+func VerifC15Push(c *Controller, f func()) {
+	c.queue.Push(func() error {
+		f()
+		return nil
+	})
+}
+
+// VerifC15Pending returns the number of tasks waiting in the controller's event queue.
+func VerifC15Pending(c *Controller) int {
+	return queue.VerifC15Pending(c.queue)
+}
+
+// VerifC15Caches is a copy of the hand-written caches of the controller.
+type VerifC15Caches struct {
+	// PodsByIP: ip -> sorted "ns/name" keys
+	PodsByIP map[string][]string
+	// IPByPods: "ns/name" -> ip
+	IPByPods map[string]string
+	// NeedResync: ip -> sorted "ns/name" endpoint slice keys
+	NeedResync map[string][]string
+	// Slices: hostname -> slice name -> endpoints (the cached pointers; callers must not mutate)
+	Slices map[string]map[string][]*model.IstioEndpoint
+}
+
+// VerifC15Snapshot copies PodCache.{podsByIP, ipByPods, needResync} and
+// endpointSliceCache.endpointsByServiceAndSlice under their locks.
+func VerifC15Snapshot(c *Controller) VerifC15Caches {
+	out := VerifC15Caches{
+		PodsByIP:   map[string][]string{},
+		IPByPods:   map[string]string{},
+		NeedResync: map[string][]string{},
+		Slices:     map[string]map[string][]*model.IstioEndpoint{},
+	}
+	pc := c.pods
+	pc.RLock()
+	for ip, keys := range pc.podsByIP {
+		l := make([]string, 0, len(keys))
+		for k := range keys {
+			l = append(l, k.String())
+		}
+		sort.Strings(l)
+		out.PodsByIP[ip] = l
+	}
+	for k, ip := range pc.ipByPods {
+		out.IPByPods[k.String()] = ip
+	}
+	for ip, keys := range pc.needResync {
+		l := make([]string, 0, len(keys))
+		for k := range keys {
+			l = append(l, k.String())
+		}
+		sort.Strings(l)
+		out.NeedResync[ip] = l
+	}
+	pc.RUnlock()
+	ec := c.endpoints.endpointCache
+	ec.mu.RLock()
+	for h, bySlice := range ec.endpointsByServiceAndSlice {
+		m := make(map[string][]*model.IstioEndpoint, len(bySlice))
+		for s, eps := range bySlice {
+			m[s] = append([]*model.IstioEndpoint(nil), eps...)
+		}
+		out.Slices[string(h)] = m
+	}
+	ec.mu.RUnlock()
+	return out
+}
